@@ -536,7 +536,15 @@ func registerIntrinsics(m *Machine) {
 	N["(*time.Timer).Stop"] = func(m *Machine, fr *Frame, a []Value) Value { return TrueT }
 	N["(*time.Timer).Reset"] = func(m *Machine, fr *Frame, a []Value) Value { return TrueT }
 	N["time.runtimeNano"] = func(m *Machine, fr *Frame, a []Value) Value { return Const(64, 0) }
-	N["(*time.Location).get"] = func(m *Machine, fr *Frame, a []Value) Value { return a[0] }
+	// the local time zone is modelled as UTC: nil and &localLoc resolve to &utcLoc
+	N["(*time.Location).get"] = func(m *Machine, fr *Frame, a []Value) Value {
+		tp := m.Prog.ImportedPackage("time")
+		p, _ := a[0].(*Value)
+		if p == nil || p == m.globals[tp.Var("localLoc")] {
+			return m.globals[tp.Var("utcLoc")]
+		}
+		return a[0]
+	}
 
 	// ---- context: timeouts never fire (deadlines are not part of any property) ----
 	withCancel := func(m *Machine, fr *Frame, a []Value) Value {
